@@ -7,7 +7,8 @@ EXPLANATION = 'Mixed. P: writer.write_simple.write_to_file is executed symbolica
 def p_parts():
     from ._append import p_append
     from ._validate import p_validate
-    return [p_append, p_validate]
+    from ._generic import optional_parts
+    return [p_append, p_validate] + optional_parts(("_partfiles", "p_partfiles"))
 
 
 def run(ctx):
